@@ -4,6 +4,7 @@ import (
 	"context"
 	"fmt"
 	"math/big"
+	"os"
 	"strings"
 	"sync"
 	"time"
@@ -38,6 +39,7 @@ func runNetSession(rng *hx.Rng, n int, sid string, timeout time.Duration, startD
 	out := netOutcome{finished: make([]bool, n), keys: make([]string, n), shares: make([]*dkg.DistKeyShare, n)}
 	var wg sync.WaitGroup
 	var mu sync.Mutex
+	cancels := make([]context.CancelFunc, n)
 	t0 := time.Now()
 	for i := 0; i < n; i++ {
 		ep := net.Add(ids[i])
@@ -59,14 +61,22 @@ func runNetSession(rng *hx.Rng, n int, sid string, timeout time.Duration, startD
 			if startDelay != nil && startDelay[i] > 0 {
 				time.Sleep(startDelay[i])
 			}
+			// the member's session context stays alive until every member is done (or the deadline): the
+			// real handler goes on to register the group key on chain before it returns and cancels, and a
+			// member's in-flight sends die with its context (the senders' WaitGroup is commented out in
+			// sendToMembers) - cancelling at the very moment the key is computed would abort deliveries
+			// to slower peers and falsify "every message delivered"
 			ctx, cancel := context.WithTimeout(context.Background(), timeout)
-			defer cancel()
+			cancels[i] = cancel
 			outc, errc, err := d.Grouping(ctx, sid, ids)
 			if err != nil {
 				return
 			}
 			go func() {
-				for range errc {
+				for e := range errc {
+					if os.Getenv("C04_DEBUG") != "" {
+						fmt.Fprintf(os.Stderr, "node %d error: %v\n", i, e)
+					}
 				}
 			}()
 			select {
@@ -84,6 +94,11 @@ func runNetSession(rng *hx.Rng, n int, sid string, timeout time.Duration, startD
 	}
 	wg.Wait()
 	out.wall = time.Since(t0)
+	for _, c := range cancels {
+		if c != nil {
+			c()
+		}
+	}
 	return out
 }
 
@@ -165,7 +180,9 @@ func c04Scheds(rng *hx.Rng) []c04Sched {
 			}
 		}},
 		{"every-message-twice", nil, func(ids [][]byte) func(from, to []byte, m proto.Message, attempt int) doubles.Delivery {
-			return func(from, to []byte, m proto.Message, attempt int) doubles.Delivery { return doubles.Delivery{Copies: 2} }
+			return func(from, to []byte, m proto.Message, attempt int) doubles.Delivery {
+				return doubles.Delivery{Copies: 2}
+			}
 		}},
 		{"responses-redelivered", nil, func(ids [][]byte) func(from, to []byte, m proto.Message, attempt int) doubles.Delivery {
 			return func(from, to []byte, m proto.Message, attempt int) doubles.Delivery {
